@@ -1,5 +1,5 @@
 (* C01 — every request is answered with its own reply, in issue order.  Statements only. *)
-From MPD Require Import Bytes Tables BuilderModel LoopModel LoopProofs LoopSpec LoopSpecProofs.
+From MPD Require Import Bytes Tables BuilderModel LoopModel LoopProofs LoopSpec LoopSpecProofs ServerModel DriverLoop LoopRefine LoopRefineProofs.
 Open Scope N_scope.
 
 (* for EVERY schedule: whatever a responder is handed is the server's reply to the bytes of a request
@@ -57,8 +57,24 @@ Example c01_two_callers :
   a_replies s = [(1, rf (q_bytes q1)); (2, rf (q_bytes q2))] /\ a_sent s = [q1; q2].
 Proof. vm_compute. auto. Qed.
 
+(* ---- the EXECUTABLE system (see Props/C05.v, c05_exec_refines) ----
+   For every label sequence of the fault-free fragment, the results the callers are handed, in the
+   order they are handed out, are the echoes of a PREFIX of the issued requests in issue order:
+   every caller gets the decoded reply to its own request line, no reply is skipped, duplicated or
+   given to another caller. *)
+Theorem c01_exec_own_replies : forall cf labs gls, in_fragment cf labs gls ->
+  exists k, flat_map g_res (snd (xrun (xinit cf) labs)) = map echo_result (firstn k (flat_map issued_of gls)).
+Proof. exact exec_own_replies. Qed.
+
+Example c01_exec_example :
+  flat_map g_res (snd (xrun (xinit ex_cf) ex_labs)) =
+    map echo_result [mkReq 1 (b "status" ++ [LF]); mkReq 2 (b "stats" ++ [LF]); mkReq 3 (b "currentsong" ++ [LF])] /\
+  flat_map g_ev (snd (xrun (xinit ex_cf) ex_labs)) = map ev_text [b "player"; b "mixer"].
+Proof. exact ex_outcome. Qed.
+
 Print Assumptions c01_own_reply.
 Print Assumptions c01_issue_order.
 Print Assumptions c01_partial_failure.
 Print Assumptions c01_all_answered_in_order.
 Print Assumptions c01_progress.
+Print Assumptions c01_exec_own_replies.
